@@ -17,7 +17,7 @@ CHECKS = {
     ),
     "C02": (
         "exhaustive atom pair/triple tables + Hypothesis operand expressions against a shadow AST (packaging for atoms) on an environment grid",
-        "Complete tables of ordered pairs of all python_version/python_full_version atoms (7 operators, wildcards, in/not in lists, both operand orders), pairs and triples on one string variable, on extra (set-valued) and on platform_release, every case evaluated on its whole value grid; Hypothesis adds parse results of nested and/or trees, closure under & and |, Empty/Any operands. Checked: the relation as stated (result vs its operands), the independent reference, and is_empty()/is_any().",
+        "Complete tables of ordered pairs of all python_version/python_full_version atoms (7 operators, wildcards, in/not in lists, both operand orders, one-, two- and three-segment and pre-release literals), pairs and triples on one string variable, every pair of ==/!= groups on one variable, on extra (set-valued) and on platform_release (incl. non-version literals), wide DNF/CNF markers against the neutral/absorbing elements, every case evaluated on its whole value grid; Hypothesis adds parse results of nested and/or trees (free, variable-related, shared-factor and wide shapes), closure under & and |, Empty/Any operands. Checked: the relation as stated (result vs its operands), the independent reference, and is_empty()/is_any().",
         "Atom truth from packaging 26.3; version variables: grid contains every critical value and a point in every gap (exact), string variables: relation-closed sample. M4 rows (known finding) excluded and counted. A per-case SIGALRM cap counts as inconclusive.",
         "DESIGN.md §5 C02",
     ),
@@ -41,7 +41,7 @@ CHECKS = {
     ),
     "C06": (
         "exhaustive bound-pair pool + Hypothesis closure results, round-trip oracle on the order-cell model",
-        "Every ordered pair from a pool of 110 shaped versions (padding, pre/post/dev, epochs) x inclusivity as range and 2-range union, half-lines and points, plus random expression-tree results: str() must not raise, must re-parse, and the re-parsed object must have the same cells and compare ==.",
+        "Every ordered pair from a pool of 110 shaped versions (padding, pre/post/dev, epochs) x inclusivity as range and 2-range union, half-lines and points; an adjacent-release family (right bound = left release bumped by one at any position, both written with 0-2 trailing zeros, suffix and epoch variants; ~160 000 objects) aimed at the ~=, ==X.*, !=X.* heuristics; plus random expression-tree results: str() must not raise, must re-parse, and the re-parsed object must have the same cells and compare ==.",
         "Known finding S4a (pinned by a repository test) excluded by a narrow structural predicate and counted.",
         "DESIGN.md §5 C06",
     ),
@@ -53,25 +53,25 @@ CHECKS = {
     ),
     "C08": (
         "exhaustive tag-universe grid + Hypothesis specs/compressed tag sets against a rule predicate over a packaging-decided interpreter grid",
-        "30 requires_python shapes x 5 implementation/gil settings x every single (python, abi) tag of the stated universe (170 python tags x ~10 ABIs) decided exhaustively, plus generated requires_python texts with compressed tag sets; verdict and the first three score components must equal the statement's rule evaluated on the dense interpreter grid X.Y.Z (Z<=40).",
+        "30 requires_python shapes x 5 implementation/gil settings x every single (python, abi) tag of the stated universe (170 python tags x ~14 ABIs incl. flag combinations m/d/u/t/td, prefix look-alikes such as cp31/cp312, pypy/pyston ABIs) decided exhaustively, plus generated requires_python texts with compressed tag sets; verdict and the first three score components must equal the statement's rule evaluated on the dense interpreter grid X.Y.Z (Z<=40).",
         "Which interpreters requires_python admits is decided by packaging.SpecifierSet, not by dep-logic; grid/interval-ambiguous specs and empty specs refused by from_spec are skipped and counted.",
         "DESIGN.md §5 C08",
     ),
     "C09": (
         "complete enumeration of the platform grid against a PEP 600/656/macOS rule oracle cross-checked with packaging.tags",
-        "All 459 platforms of the quantifier's grid: tag list equals the rule oracle (as a list for manylinux/macOS, as a set for musllinux/windows), no duplicates, EnvSpec platform score strictly falls along the list with `any` last, foreign tags rejected. Exhaustive, so quick = thorough.",
-        "fat* formats stripped; linux_<arch> optional on musllinux; musllinux_1_0 (packaging only) ignored in the cross-check; arm64 on macOS 10.x excluded.",
+        "All 460 platforms of the quantifier's grid: tag list equals the rule oracle, itself cross-checked against the installed packaging.tags generators (as a list for manylinux/macOS, as a set for musllinux/windows), no duplicates, EnvSpec platform score strictly falls along the list with `any` last, foreign tags rejected. Exhaustive, so quick = thorough.",
+        "fat* formats stripped; linux_<arch> optional on musllinux; musllinux_1_0 (packaging only) ignored in the cross-check; arm64 on macOS 10.x excluded; rank of linux_<arch> on manylinux is known finding T5 (excluded, counted).",
         "DESIGN.md §5 C09",
     ),
     "C10": (
         "Hypothesis rule-based state machine over parse/&/|/reparse/variant histories; warm-vs-cold differential oracle, fresh-interpreter cross-check",
-        "Histories of up to 30 (quick) / 50 (thorough) operations over 16 base atoms x 4 spellings (so cache keys collide); every step is a probe whose warm observation (text, class, truth table, is_any/is_empty) must equal the cold recomputation of its recipe with all caches cleared and fresh objects; sample probes are additionally recomputed in a new interpreter process.",
-        "Cold = all functools caches found in dep_logic cleared; single thread; histories bounded; PYTHONHASHSEED=0.",
+        "Three layers. (1) Rule-based state machine: histories of up to 30 (quick) / 50 (thorough) operations parse / & / | / reparse / variant / permuted over per-history atom families (29 base atoms x 4 spellings, chosen so that cache keys collide); every step is a probe whose warm observation (text, class, truth table, is_any/is_empty) must equal the cold recomputation of its recipe with every cache found in dep_logic (module level and on methods) cleared and fresh objects. (2) Exhaustive small scope: for each atom family every history of ONE binary operation x every probe `x op y`, `(x op y) op z`. (3) Fresh interpreters: ~2 600 single parse_marker calls per family evaluated in new processes that differ only in PYTHONHASHSEED must agree; sample probes of (1) are also recomputed in a new process.",
+        "Cold = all functools caches found in dep_logic cleared; single thread; histories bounded; layers (1)-(2) run under PYTHONHASHSEED=0.",
         "DESIGN.md §5 C10",
     ),
     "C11": (
         "complete enumeration of Python-version atoms and simple specifiers x interpreter grid; three-way agreement (specifier view / evaluate / packaging)",
-        "All 330 atoms (2 variables x 9 literals x 7 operators x 2 operand orders, wildcards, 7 in/not-in lists) and 110 from_specifier inputs x 2 names on 315 interpreters: value in atom.specifier <=> atom.evaluate <=> packaging; from_specifier result is None or true exactly where packaging's SpecifierSet admits.",
+        "All 330 atoms (2 variables x 9 literals x 7 operators x 2 operand orders, wildcards, 7 in/not-in lists) and ~1 100 from_specifier inputs (simple specifiers plus 5 two-bound shapes over all pairs of 15 Python-like versions) x 2 names on 315 interpreters: value in atom.specifier <=> atom.evaluate <=> packaging; from_specifier result is None or true exactly where packaging's SpecifierSet admits.",
         "M4 rows excluded (known finding).",
         "DESIGN.md §5 C11",
     ),
